@@ -395,11 +395,12 @@ func ruleLocalCopies(c *Ctx, r4 string) {
 		// (the event constructor, a local closure in the pinned tree, is inlined by the normalisation pass)
 		c.Guard(r4, f, "shared meta event only for remote subscribers", `^call:router\.\(\*broker\)\.trySend\(\^b, range\(%metaSub\.subscribers\)#k, phi\(`, 1,
 			clause("recipient is not in-process", F(`^call:invoke:wamp\.Peer\.IsLocal\[range\(%metaSub\.subscribers\)#k\.Peer\]\(\)$`)))
-		c.Guard(r4, f, "local subscriber gets a meta event built for it in this iteration", `^call:router\.\(\*broker\)\.trySend\(\^b, range\(%metaSub\.subscribers\)#k, new\(wamp\.Event\)\)$`, 1,
+		mkCall := `call:(router\.\(\*broker\)\.` + m + `\$1\$1|dyn:[%^]makeEvent)\(\)` // the constructor when it is passed on as a value and therefore stays a closure
+		c.Guard(r4, f, "local subscriber gets a meta event built for it in this iteration", `^call:router\.\(\*broker\)\.trySend\(\^b, range\(%metaSub\.subscribers\)#k, (new\(wamp\.Event\)|`+mkCall+`)\)$`, 1,
 			clause("recipient is in-process", T(`^call:invoke:wamp\.Peer\.IsLocal\[range\(%metaSub\.subscribers\)#k\.Peer\]\(\)$`)))
 		// the event given to a local subscriber is allocated after the recipient was found to be local (per iteration)
 		c.Reach(r4, f, "no local delivery of an event allocated outside the local branch", ReachSpec{
 			FromEdge: &ir.Clause{Name: "recipient is in-process", Edges: []ir.EdgeSpec{T(`^call:invoke:wamp\.Peer\.IsLocal\[range\(%metaSub\.subscribers\)#k\.Peer\]\(\)$`)}},
-			Stop:     `^store:new\(wamp\.Event\)\.&Subscription=`, Target: `^call:router\.\(\*broker\)\.trySend\(`, Want: false})
+			Stop:     `^store:new\(wamp\.Event\)\.&Subscription=|^` + mkCall + `$`, Target: `^call:router\.\(\*broker\)\.trySend\(`, Want: false})
 	}
 }
